@@ -391,7 +391,7 @@ func c11Judge(c c11Case, res opResult) string {
 	}
 	if res.err != nil {
 		if c.mayRef {
-			ev.Refused("C11-" + c.op)
+			ev.Refused("C11-" + c.op + ": " + refusalReason(res.err))
 			return ""
 		}
 		return "valid request refused: " + res.err.Error()
